@@ -35,6 +35,7 @@ CHECKS = {
     'C15': ('checks.c15', 'C15'),
     'C16': ('checks.c16', 'C16'),
     'C17': ('checks.c17', 'C17'),
+    'C18': ('checks.c18', 'C18'),
     'C19': ('checks.c19', 'C19'),
 }
 
